@@ -365,6 +365,46 @@ func (p c18) Gen(t *rapid.T, env *Env) (*Case, []*Out) {
 			}
 		}
 	case "recursive":
+		// plus, half of the time, a cycle of UNTYPED definitions that consist of nothing but
+		// allOf/anyOf over same-document refs (Expr: anyOf[Paren, Literal]; Paren: allOf[Expr];
+		// Literal: {properties}) in a drawn keyword / branch order
+		if afs := argFiles(w, args); len(afs) > 0 && rapid.Bool().Draw(t, "untypedcycle") {
+			f := afs[0]
+			kw := func(l string) string { return rapid.SampledFrom([]string{"anyOf", "allOf"}).Draw(t, l) }
+			frag := rapid.SampledFrom([]string{"#/$defs/", "#/definitions/"}).Draw(t, "ucfrag")
+			if f.BothDefs {
+				frag = "#/$defs/"
+			}
+			ref := func(n string) any { return Obj{{"$ref", frag + n}} }
+			lit := Obj{{"properties", Obj{{"ucv", Obj{{"type", "string"}}}}}}
+			if rapid.Bool().Draw(t, "uclittyped") {
+				lit = append(Obj{{"type", "object"}}, lit...)
+			}
+			exprBranches := []any{ref("UcParen"), ref("UcLit")}
+			if rapid.Bool().Draw(t, "ucorder") {
+				exprBranches = []any{ref("UcLit"), ref("UcParen")}
+			}
+			parenBranches := []any{ref("UcExpr")}
+			if rapid.Bool().Draw(t, "ucparen2") {
+				parenBranches = append(parenBranches, ref("UcLit"))
+			}
+			doc := cloneObj(f.Doc)
+			doc = withDef(doc, "UcExpr", Obj{{kw("uck1"), exprBranches}})
+			doc = withDef(doc, "UcParen", Obj{{kw("uck2"), parenBranches}})
+			doc = withDef(doc, "UcLit", lit)
+			doc = addProp(doc, "ucroot", ref(rapid.SampledFrom([]string{"UcExpr", "UcParen"}).Draw(t, "ucentry")))
+			nf := *f
+			nf.Doc = doc
+			for i, wf := range w.Files {
+				if wf == f {
+					cp := *w
+					cp.Files = append([]*SFile{}, w.Files...)
+					cp.Files[i] = &nf
+					w = &cp
+				}
+			}
+			feature = "untyped-combinator-cycle"
+		}
 		spec0 := w.Spec("", nil, args)
 		add("valid-world", spec0, c18Run{Kind: "valid", Ref: -1, Feature: feature})
 	case "odd":
